@@ -56,6 +56,9 @@ CHECKS = {
  "C13": dict(engine="E1-world on SQLCipher + E3 ticks + threads", category="exploration", technique="property-based testing: canary search in every database/sidecar file over generated histories (at every storage tick and at rest), model-based constructor x file-state sequences, randomized concurrent first opens",
    text="(1) generated histories incl. rollbacks and 20-50 KB values on SQLCipher storage (caller key / mock keyring) under umask 000: canaries read back through the API are searched in several encodings in every sidecar file at every storage tick and in every file at rest; pragmas, file mode, one-bit-wrong key / no key refused without touching the file, right key shows the same data. (2) generated constructor sequences over {keyring A, keyring B, key 1, key 2, unencrypted} on {missing, empty, plain, encrypted} files (optionally below directories the library must create) against a small model: Ok/Err, refused opens change neither file nor keyring, entries are reused, directories 0700. (3) 2..16 threads opening one new path at once: no panic, one key, shared rows, normal open afterwards. Search, not proof.",
    note="The keyring is keyring-core's in-process mock; journals of single autocommitted statements are only visible where a tick falls inside an explicit transaction or at rest; racing openers may fail spuriously (not judged).", ref="DESIGN.md §4 C13"),
+ "C06": dict(engine="E1-world + rogue toolkit + bindings", category="exploration", technique="structure-aware mutation-based property testing (outer event fields; inner MLS bytes re-encrypted under the right secret; key-package fields; junk arguments through the bindings) with a before/after fingerprint oracle and panic detection",
+   text="(1) generated world histories in which members mutate events they can open (22 mutation kinds from the wrapper's kind/timestamp/tag down to bit flips and clear framing-header edits behind the NIP-44 layer) and hand them to members in every state; every refused hand-over must leave all groups of that client identical; panics are violations. (2) one-field mutations of valid key-package events through parse_key_package / add_members. (3) call sequences over every exported mdk-uniffi method with junk strings and byte vectors: no panic. A coverage-guided libFuzzer campaign over the same entry points complements this (see /verif/fuzz). Search, not proof.",
+   note="Only refused results are judged (accepted mutants are other properties' business); OpenMLS-internal ratchet state is not observable; the rollback-before-validation behaviour is listed finding O15.", ref="DESIGN.md §4 C06"),
 }
 
 checks = []
